@@ -193,7 +193,12 @@ func genC18(seed uint64, tier string) *Case {
 		case 0:
 			c.Steps = append(c.Steps, Step{Op: "other", S: []string{"member", "query"}[g.Intn(2)]})
 		default:
-			c.Steps = append(c.Steps, Step{Op: "uev", S: []string{"a", "b", "c"}[g.Intn(3)], U: uint64(g.Intn(6)), F: g.Bool(0.75)})
+			u := uint64(g.Intn(6))
+			if g.Bool(0.1) {
+				// Lamport times are plain 64-bit numbers: far-apart values compare like near ones
+				u = []uint64{1 << 63, 1<<63 + 1, 1<<63 - 1, 1<<64 - 2, 1 << 32}[g.Intn(5)]
+			}
+			c.Steps = append(c.Steps, Step{Op: "uev", S: []string{"a", "b", "c"}[g.Intn(3)], U: u, F: g.Bool(0.75)})
 		}
 		if d := coalesceGaps[g.Intn(len(coalesceGaps))]; d > 0 {
 			c.Steps = append(c.Steps, Step{Op: "gap", D: d})
